@@ -798,8 +798,9 @@ example : untarInto [{ name := "top/a".toList, content := "1", kind := .reg },
 example : unzipInto [{ name := "ok".toList, content := "1", kind := .reg },
       { name := "../evil".toList, content := "2", kind := .reg }] 0 (fun _ => true) [] =
     (some .outsideContext, [("ok".toList, "1")]) := by decide
--- the two loops differ: a hostile "._" name is skipped by Untar, rejected by Unzip
-example : untarInto [{ name := "../._x".toList, content := "1", kind := .reg }] 0 (fun _ => true) [] = (none, []) ∧
+-- a hostile "._" name is rejected by both loops (Untar too since the AppleDouble skip moved behind the name check)
+example : untarInto [{ name := "../._x".toList, content := "1", kind := .reg }] 0 (fun _ => true) [] =
+      (some .outsideContext, []) ∧
     unzipInto [{ name := "../._x".toList, content := "1", kind := .reg }] 0 (fun _ => true) [] =
       (some .outsideContext, []) := by decide
 example : NoApple [("a/x".toList, "1")] := by
